@@ -3,7 +3,9 @@
 package main
 
 import (
+	"bytes"
 	"encoding/json"
+	"os/exec"
 	"flag"
 	"fmt"
 	"math/rand"
@@ -128,6 +130,10 @@ func main() {
 		fmt.Fprintf(os.Stderr, "corr: unknown property %q (have %s)\n", *prop, strings.Join(ks, " "))
 		os.Exit(2)
 	}
+	if isolateProps[*prop] && *only == "" && *replay == "" {
+		runIsolated(*prop, *tier, *seed, *driver, *out, *tmp)
+		return
+	}
 	d, err := drv.Start(*driver)
 	if err != nil {
 		fmt.Fprintln(os.Stderr, "corr: cannot start driver:", err)
@@ -148,6 +154,71 @@ func main() {
 	} else if err := os.WriteFile(*out, b, 0644); err != nil {
 		fmt.Fprintln(os.Stderr, "corr:", err)
 		os.Exit(3)
+	}
+}
+
+// Properties whose generators feed hostile input to the real code run every backend kind in its
+// own child process: a fatal runtime error (stack overflow, SIGBUS) then costs one child, is
+// reported as a finding, and does not take the other backends' results with it.
+var isolateProps = map[string]bool{"C09": true, "C10": true}
+
+func runIsolated(prop, tier string, seed int64, driver, out, tmp string) {
+	merged := &Report{Property: prop, Tier: tier, Seed: seed, Hist: map[string]int{}, Exhaustive: false}
+	for _, kind := range []string{"mem", "bolt", "fsM-mem", "fsM-dir", "fsS-mem", "fsS-dir"} {
+		childOut := fmt.Sprintf("%s/child-%s.json", tmp, kind)
+		os.Remove(childOut)
+		cmd := exec.Command(os.Args[0], "-prop", prop, "-tier", tier, "-seed", fmt.Sprint(seed), "-driver", driver, "-tmp", tmp, "-backend", kind, "-out", childOut)
+		var stderr bytes.Buffer
+		cmd.Stderr = &stderr
+		err := cmd.Run()
+		var rep Report
+		if b, rerr := os.ReadFile(childOut); rerr == nil && json.Unmarshal(b, &rep) == nil && err == nil {
+			merged.Evaluations += rep.Evaluations
+			merged.Distinct += rep.Distinct
+			merged.DriverLines += rep.DriverLines
+			merged.Skipped += rep.Skipped
+			merged.Rule = rep.Rule
+			merged.Notes = append(merged.Notes, rep.Notes...)
+			if len(merged.Samples) < 12 {
+				merged.Samples = append(merged.Samples, rep.Samples...)
+			}
+			merged.Mismatches = append(merged.Mismatches, rep.Mismatches...)
+			for k, v := range rep.Hist {
+				merged.Hist[k] += v
+			}
+			continue
+		}
+		// the child died: find what it was
+		tail := stderr.String()
+		what := "fatal runtime error"
+		for _, l := range strings.Split(tail, "\n") {
+			if strings.HasPrefix(l, "fatal error:") || strings.HasPrefix(l, "panic:") || strings.Contains(l, "signal SIG") {
+				what = strings.TrimSpace(l)
+				break
+			}
+		}
+		frames := ""
+		for _, l := range strings.Split(tail, "\n") {
+			if strings.Contains(l, "github.com/") && !strings.HasPrefix(l, "\t") && len(frames) < 600 {
+				frames += strings.TrimSpace(l) + " <- "
+			}
+		}
+		last := ""
+		if b, rerr := os.ReadFile(fmt.Sprintf("%s/lastop-%s.txt", tmp, kind)); rerr == nil {
+			last = string(b)
+		}
+		merged.Mismatches = append(merged.Mismatches, Mismatch{Kind: "spec", Backend: kind, Finger: "process-crash", Impl: what + " ; " + trunc(frames, 500),
+			Spec: "the server process survives every request", Case: []string{"last operation before the crash: " + last}})
+		merged.Hist["process-crash:"+kind]++
+	}
+	if merged.Mismatches == nil {
+		merged.Mismatches = []Mismatch{}
+	}
+	b, _ := json.MarshalIndent(merged, "", " ")
+	if out == "" {
+		os.Stdout.Write(b)
+	} else {
+		os.WriteFile(out, b, 0644)
 	}
 }
 
